@@ -108,7 +108,9 @@ def run_logger1(ctx, binary, data, seed, chunk, pause_ms, n, paced=False, pre=b"
     cfg = os.path.join(d, "cfg.json")
     with open(cfg, "w") as f:
         # every second run has the event log switched on (its own directory): it must make no difference
-        conf = {"log_events": n % 2 == 1, "event_log_directory": os.path.join(d, "events"), "message_log_directory": logdir}
+        # ... and every fifth run keeps the event log in the SAME directory as the record (two daily files side by side)
+        conf = {"log_events": n % 2 == 1, "event_log_directory": logdir if n % 5 == 4 else os.path.join(d, "events"),
+                "message_log_directory": logdir}
         k = -1
         if not pre and not rec_broken:
             k = ZONED[0]
